@@ -8,6 +8,11 @@
 //! the real `Cancel::cancel` and the timer expiry (`vk_tl::timer_fires`). The hook then checks that the parked
 //! coroutine was handed to the scheduler exactly once iff an event happened, moves the passed-in result into the
 //! coroutine context (what `resume` does) and returns, which is the coroutine being resumed.
+//!
+//! TOOL LIMIT (recorded in DESIGN.md): only the schedules that resume the coroutine from inside `subscribe`
+//! (the lost-wake-up window, C02.2.0 / C02.2.7) are within CBMC's reach; every schedule that completes
+//! `subscribe` (registration with the Cancel object) exceeds 15 minutes of symbolic execution. Those harnesses
+//! stay in this file with `tier: experimental` and are never run by the registered commands.
 //@ file-needs: tl cz
 //@ file-inject: src/park.rs
 //@ file-property: C02
@@ -23,28 +28,34 @@ static mut EVENTS_BEFORE: u8 = 0;
 static mut EVENTS_AFTER: u8 = 0;
 static mut HOOK_RAN: usize = 0;
 static mut RESUMPTIONS_SEEN: usize = 0;
-static mut ALLOW_CANCEL_EVENT: bool = true;
 static mut TIMER_WAS_ARMED: bool = false;
 
 fn resumptions() -> usize {
     sup::count(sup::E_SCHEDULE) + sup::count(sup::E_SCHEDULE_GLOBAL) + sup::count(sup::E_RUN)
 }
 
-fn env_events(may_timer: bool) -> u8 {
+/// the environment's schedule for this run: which events happen before / after the worker subscribes.
+/// CONCRETE per harness (bit0 unpark, bit1 timer, bit2 cancel): CBMC cannot cope with heap-changing events
+/// chosen symbolically (pointers and error tags stop being constants and every destructor becomes reachable),
+/// so the harnesses enumerate the schedules instead.
+static mut SCRIPT_BEFORE: u8 = 0;
+static mut SCRIPT_AFTER: u8 = 0;
+
+fn env_events(mask: u8, may_timer: bool) -> u8 {
     let mut done = 0u8;
     let p = unsafe { &*PARK };
-    if kani::any() {
+    if mask & 1 != 0 {
         p.unpark();
         done |= 1;
     }
-    if may_timer && kani::any() {
+    if may_timer && mask & 2 != 0 {
         let data = unsafe { tl::LAST_TIMER_DATA.clone() };
         if let Some(d) = data {
             tl::timer_fires(&d);
             done |= 2;
         }
     }
-    if unsafe { ALLOW_CANCEL_EVENT } && kani::any() {
+    if mask & 4 != 0 {
         let co = unsafe { CO.unwrap() };
         unsafe { sup::cancel_of(co).cancel() };
         done |= 4;
@@ -61,13 +72,15 @@ fn yield_hook(slot: *mut u8) {
         let mut co: CoroutineImpl = generator::shim_new_empty(0x1000);
         co.set_local_data(generator::ghost::CUR_LOCAL);
         // --- window 1: the coroutine has left its stack, the worker has not subscribed yet ---
-        EVENTS_BEFORE = env_events(false);
-        // --- the real subscribe ---
-        es.subscribe(co);
+        EVENTS_BEFORE = env_events(SCRIPT_BEFORE, false);
+        // --- the real subscribe (static dispatch, see vk_support::es_points_to) ---
+        assert!(sup::es_points_to(&es, PARK), "[C02.2-subscriber-target] the yielded EventSubscriber must refer to the Park the coroutine parks on");
+        std::mem::forget(es);
+        EventSource::subscribe(&mut *(PARK as *mut Park), co);
         TIMER_WAS_ARMED = tl::ADD_TIMERS > 0;
         // --- window 2: registered and waiting ---
         if resumptions() == 0 {
-            EVENTS_AFTER = env_events(true);
+            EVENTS_AFTER = env_events(SCRIPT_AFTER, true);
         }
         let n = resumptions();
         RESUMPTIONS_SEEN = n;
@@ -89,7 +102,7 @@ fn yield_hook(slot: *mut u8) {
     }
 }
 
-fn setup(allow_cancel_event: bool, ignore_cancel: bool) -> &'static Park {
+fn setup(before: u8, after: u8, ignore_cancel: bool) -> &'static Park {
     sup::trace_reset();
     sup::scheduler_reset();
     tl::timers_reset();
@@ -103,7 +116,8 @@ fn setup(allow_cancel_event: bool, ignore_cancel: bool) -> &'static Park {
         EVENTS_AFTER = 0;
         HOOK_RAN = 0;
         RESUMPTIONS_SEEN = 0;
-        ALLOW_CANCEL_EVENT = allow_cancel_event;
+        SCRIPT_BEFORE = before;
+        SCRIPT_AFTER = after;
         TIMER_WAS_ARMED = false;
         generator::ghost::YIELDS = 0;
         generator::ghost::YIELD_HOOK = Some(yield_hook);
@@ -125,9 +139,12 @@ fn setup(allow_cancel_event: bool, ignore_cancel: bool) -> &'static Park {
 #[kani::stub(crate::scheduler::Scheduler::del_timer, tl::del_timer_stub)]
 #[kani::stub(crate::coroutine_impl::run_coroutine, sup::run_coroutine_stub)]
 #[kani::stub(crate::cancel::trigger_cancel_panic, sup::cancel_panic_stub)]
+#[kani::stub(<crate::park::Park as std::ops::Drop>::drop, sup::park_drop_noop)]
+#[kani::stub(crate::yield_now::set_co_para, sup::set_co_para_kind_only)]
+#[kani::stub(generator::co_set_para, sup::co_set_para_kind_only)]
 #[kani::unwind(3)]
 fn c02_1a_token_is_kept_and_consumed() {
-    let p = setup(false, true);
+    let p = setup(0, 0, true);
     p.unpark();
     if kani::any() {
         p.unpark();
@@ -142,26 +159,10 @@ fn c02_1a_token_is_kept_and_consumed() {
     sup::leave_coroutine();
 }
 
-//@ obligation: C02.2a
-//@ kind: K3
-//@ complete: yes
-//@ functions: Park::park_timeout, Park::subscribe, Park::unpark_impl, Park::wake_up, Park::fast_wake_up, Park::remove_timeout_handle, Park::yield_back, yield_with, CancelImpl::cancel
-//@ statement: a park that has to block (cancellation enabled, with and without time-out) against every combination of unpark / time-out / cancel
-//@ statement: delivered before the worker subscribes or after it: whenever at least one of them happened the coroutine is handed to the scheduler
-//@ statement: exactly once (never lost, never twice); the park then returns Ok for an unpark alone, Timeout only if the timer fired, Canceled only if
-//@ statement: it was cancelled; the token, the passed-in result and the timer are cleaned up; exactly one yield
-#[kani::proof]
-#[kani::stub(crate::scheduler::get_scheduler, sup::get_scheduler_stub)]
-#[kani::stub(crate::scheduler::Scheduler::schedule, sup::schedule_stub)]
-#[kani::stub(crate::scheduler::Scheduler::add_timer, tl::add_timer_stub)]
-#[kani::stub(crate::scheduler::Scheduler::del_timer, tl::del_timer_stub)]
-#[kani::stub(crate::coroutine_impl::run_coroutine, sup::run_coroutine_stub)]
-#[kani::stub(crate::cancel::trigger_cancel_panic, sup::cancel_panic_stub)]
-#[kani::unwind(3)]
-fn c02_2a_blocking_park_is_woken_exactly_once() {
+fn blocking_park<const BEFORE: u8, const AFTER: u8, const TIMED: bool>() {
     // the Blocker flavour: the caller handles the cancel result itself (no panic inside park)
-    let p = setup(true, true);
-    let timed: bool = kani::any();
+    let p = setup(BEFORE, AFTER, true);
+    let timed: bool = TIMED;
     let d = Duration::from_millis(7);
     let r = p.park_timeout(if timed { Some(d) } else { None });
     // reaching this point means the coroutine was resumed
@@ -188,11 +189,261 @@ fn c02_2a_blocking_park_is_woken_exactly_once() {
     assert!(!sup::current_para_is_some(), "[C15.3-result-consumed] the passed-in result is consumed before park returns");
     assert!(p.timeout_handle.load(Ordering::Relaxed).is_null(), "[C02.4-timer-removed] the timer handle is removed after the park");
     assert!(p.timeout.take().is_none(), "[C02.4-timeout-cleared] the stored time-out does not leak into the next park");
-    kani::cover!(unsafe { EVENTS_BEFORE } == 1, "unpark in the lost-wake-up window");
-    kani::cover!(unsafe { EVENTS_BEFORE } == 4, "cancel before subscribe");
-    kani::cover!(unsafe { EVENTS_AFTER } == 2, "timer fires");
-    kani::cover!(unsafe { EVENTS_AFTER } == 1, "unpark after subscribe");
     sup::leave_coroutine();
+}
+
+
+//@ obligation: C02.2.0
+//@ kind: K3
+//@ complete: yes
+//@ functions: Park::park_timeout, Park::subscribe, Park::unpark_impl, Park::wake_up, Park::fast_wake_up, Park::remove_timeout_handle, Park::yield_back, yield_with, CancelImpl::cancel
+//@ statement: schedule [unpark in the lost-wake-up window (after the coroutine left its stack, before the worker subscribes)]: a park that has to block (caller handles the cancel result); whenever at least one of them happened the coroutine is handed to the scheduler
+//@ statement: exactly once (never lost, never twice); the park then returns Ok for an unpark alone, Timeout only if the timer fired, Canceled only if
+//@ statement: it was cancelled; the token, the passed-in result and the timer are cleaned up; exactly one yield
+#[kani::proof]
+#[kani::stub(crate::scheduler::get_scheduler, sup::get_scheduler_stub)]
+#[kani::stub(crate::scheduler::Scheduler::schedule, sup::schedule_stub)]
+#[kani::stub(crate::scheduler::Scheduler::add_timer, tl::add_timer_stub)]
+#[kani::stub(crate::scheduler::Scheduler::del_timer, tl::del_timer_stub)]
+#[kani::stub(crate::coroutine_impl::run_coroutine, sup::run_coroutine_stub)]
+#[kani::stub(crate::cancel::trigger_cancel_panic, sup::cancel_panic_stub)]
+#[kani::stub(<crate::park::Park as std::ops::Drop>::drop, sup::park_drop_noop)]
+#[kani::stub(crate::yield_now::set_co_para, sup::set_co_para_kind_only)]
+#[kani::stub(generator::co_set_para, sup::co_set_para_kind_only)]
+#[kani::unwind(3)]
+fn c02_2_sched_0_b1_a0_untimed() {
+    blocking_park::<1, 0, false>();
+}
+
+//@ obligation: C02.2.1
+//@ tier: experimental
+//@ kind: K3
+//@ complete: yes
+//@ functions: Park::park_timeout, Park::subscribe, Park::unpark_impl, Park::wake_up, Park::fast_wake_up, Park::remove_timeout_handle, Park::yield_back, yield_with, CancelImpl::cancel
+//@ statement: schedule [unpark after the worker subscribed]: a park that has to block (caller handles the cancel result); whenever at least one of them happened the coroutine is handed to the scheduler
+//@ statement: exactly once (never lost, never twice); the park then returns Ok for an unpark alone, Timeout only if the timer fired, Canceled only if
+//@ statement: it was cancelled; the token, the passed-in result and the timer are cleaned up; exactly one yield
+#[kani::proof]
+#[kani::stub(crate::scheduler::get_scheduler, sup::get_scheduler_stub)]
+#[kani::stub(crate::scheduler::Scheduler::schedule, sup::schedule_stub)]
+#[kani::stub(crate::scheduler::Scheduler::add_timer, tl::add_timer_stub)]
+#[kani::stub(crate::scheduler::Scheduler::del_timer, tl::del_timer_stub)]
+#[kani::stub(crate::coroutine_impl::run_coroutine, sup::run_coroutine_stub)]
+#[kani::stub(crate::cancel::trigger_cancel_panic, sup::cancel_panic_stub)]
+#[kani::stub(<crate::park::Park as std::ops::Drop>::drop, sup::park_drop_noop)]
+#[kani::stub(crate::yield_now::set_co_para, sup::set_co_para_kind_only)]
+#[kani::stub(generator::co_set_para, sup::co_set_para_kind_only)]
+#[kani::unwind(3)]
+fn c02_2_sched_1_b0_a1_untimed() {
+    blocking_park::<0, 1, false>();
+}
+
+//@ obligation: C02.2.2
+//@ tier: experimental
+//@ kind: K3
+//@ complete: yes
+//@ functions: Park::park_timeout, Park::subscribe, Park::unpark_impl, Park::wake_up, Park::fast_wake_up, Park::remove_timeout_handle, Park::yield_back, yield_with, CancelImpl::cancel
+//@ statement: schedule [the timer fires]: a park that has to block (caller handles the cancel result); whenever at least one of them happened the coroutine is handed to the scheduler
+//@ statement: exactly once (never lost, never twice); the park then returns Ok for an unpark alone, Timeout only if the timer fired, Canceled only if
+//@ statement: it was cancelled; the token, the passed-in result and the timer are cleaned up; exactly one yield
+#[kani::proof]
+#[kani::stub(crate::scheduler::get_scheduler, sup::get_scheduler_stub)]
+#[kani::stub(crate::scheduler::Scheduler::schedule, sup::schedule_stub)]
+#[kani::stub(crate::scheduler::Scheduler::add_timer, tl::add_timer_stub)]
+#[kani::stub(crate::scheduler::Scheduler::del_timer, tl::del_timer_stub)]
+#[kani::stub(crate::coroutine_impl::run_coroutine, sup::run_coroutine_stub)]
+#[kani::stub(crate::cancel::trigger_cancel_panic, sup::cancel_panic_stub)]
+#[kani::stub(<crate::park::Park as std::ops::Drop>::drop, sup::park_drop_noop)]
+#[kani::stub(crate::yield_now::set_co_para, sup::set_co_para_kind_only)]
+#[kani::stub(generator::co_set_para, sup::co_set_para_kind_only)]
+#[kani::unwind(3)]
+fn c02_2_sched_2_b0_a2_timed() {
+    blocking_park::<0, 2, true>();
+}
+
+//@ obligation: C02.2.3
+//@ tier: experimental
+//@ kind: K3
+//@ complete: yes
+//@ functions: Park::park_timeout, Park::subscribe, Park::unpark_impl, Park::wake_up, Park::fast_wake_up, Park::remove_timeout_handle, Park::yield_back, yield_with, CancelImpl::cancel
+//@ statement: schedule [unpark while a timer is armed]: a park that has to block (caller handles the cancel result); whenever at least one of them happened the coroutine is handed to the scheduler
+//@ statement: exactly once (never lost, never twice); the park then returns Ok for an unpark alone, Timeout only if the timer fired, Canceled only if
+//@ statement: it was cancelled; the token, the passed-in result and the timer are cleaned up; exactly one yield
+#[kani::proof]
+#[kani::stub(crate::scheduler::get_scheduler, sup::get_scheduler_stub)]
+#[kani::stub(crate::scheduler::Scheduler::schedule, sup::schedule_stub)]
+#[kani::stub(crate::scheduler::Scheduler::add_timer, tl::add_timer_stub)]
+#[kani::stub(crate::scheduler::Scheduler::del_timer, tl::del_timer_stub)]
+#[kani::stub(crate::coroutine_impl::run_coroutine, sup::run_coroutine_stub)]
+#[kani::stub(crate::cancel::trigger_cancel_panic, sup::cancel_panic_stub)]
+#[kani::stub(<crate::park::Park as std::ops::Drop>::drop, sup::park_drop_noop)]
+#[kani::stub(crate::yield_now::set_co_para, sup::set_co_para_kind_only)]
+#[kani::stub(generator::co_set_para, sup::co_set_para_kind_only)]
+#[kani::unwind(3)]
+fn c02_2_sched_3_b0_a1_timed() {
+    blocking_park::<0, 1, true>();
+}
+
+//@ obligation: C02.2.4
+//@ tier: experimental
+//@ kind: K3
+//@ complete: yes
+//@ functions: Park::park_timeout, Park::subscribe, Park::unpark_impl, Park::wake_up, Park::fast_wake_up, Park::remove_timeout_handle, Park::yield_back, yield_with, CancelImpl::cancel
+//@ statement: schedule [cancel before the worker subscribes]: a park that has to block (caller handles the cancel result); whenever at least one of them happened the coroutine is handed to the scheduler
+//@ statement: exactly once (never lost, never twice); the park then returns Ok for an unpark alone, Timeout only if the timer fired, Canceled only if
+//@ statement: it was cancelled; the token, the passed-in result and the timer are cleaned up; exactly one yield
+#[kani::proof]
+#[kani::stub(crate::scheduler::get_scheduler, sup::get_scheduler_stub)]
+#[kani::stub(crate::scheduler::Scheduler::schedule, sup::schedule_stub)]
+#[kani::stub(crate::scheduler::Scheduler::add_timer, tl::add_timer_stub)]
+#[kani::stub(crate::scheduler::Scheduler::del_timer, tl::del_timer_stub)]
+#[kani::stub(crate::coroutine_impl::run_coroutine, sup::run_coroutine_stub)]
+#[kani::stub(crate::cancel::trigger_cancel_panic, sup::cancel_panic_stub)]
+#[kani::stub(<crate::park::Park as std::ops::Drop>::drop, sup::park_drop_noop)]
+#[kani::stub(crate::yield_now::set_co_para, sup::set_co_para_kind_only)]
+#[kani::stub(generator::co_set_para, sup::co_set_para_kind_only)]
+#[kani::unwind(3)]
+fn c02_2_sched_4_b4_a0_untimed() {
+    blocking_park::<4, 0, false>();
+}
+
+//@ obligation: C02.2.5
+//@ tier: experimental
+//@ kind: K3
+//@ complete: yes
+//@ functions: Park::park_timeout, Park::subscribe, Park::unpark_impl, Park::wake_up, Park::fast_wake_up, Park::remove_timeout_handle, Park::yield_back, yield_with, CancelImpl::cancel
+//@ statement: schedule [cancel while parked]: a park that has to block (caller handles the cancel result); whenever at least one of them happened the coroutine is handed to the scheduler
+//@ statement: exactly once (never lost, never twice); the park then returns Ok for an unpark alone, Timeout only if the timer fired, Canceled only if
+//@ statement: it was cancelled; the token, the passed-in result and the timer are cleaned up; exactly one yield
+#[kani::proof]
+#[kani::stub(crate::scheduler::get_scheduler, sup::get_scheduler_stub)]
+#[kani::stub(crate::scheduler::Scheduler::schedule, sup::schedule_stub)]
+#[kani::stub(crate::scheduler::Scheduler::add_timer, tl::add_timer_stub)]
+#[kani::stub(crate::scheduler::Scheduler::del_timer, tl::del_timer_stub)]
+#[kani::stub(crate::coroutine_impl::run_coroutine, sup::run_coroutine_stub)]
+#[kani::stub(crate::cancel::trigger_cancel_panic, sup::cancel_panic_stub)]
+#[kani::stub(<crate::park::Park as std::ops::Drop>::drop, sup::park_drop_noop)]
+#[kani::stub(crate::yield_now::set_co_para, sup::set_co_para_kind_only)]
+#[kani::stub(generator::co_set_para, sup::co_set_para_kind_only)]
+#[kani::unwind(3)]
+fn c02_2_sched_5_b0_a4_untimed() {
+    blocking_park::<0, 4, false>();
+}
+
+//@ obligation: C02.2.6
+//@ tier: experimental
+//@ kind: K3
+//@ complete: yes
+//@ functions: Park::park_timeout, Park::subscribe, Park::unpark_impl, Park::wake_up, Park::fast_wake_up, Park::remove_timeout_handle, Park::yield_back, yield_with, CancelImpl::cancel
+//@ statement: schedule [cancel while parked with a timer armed]: a park that has to block (caller handles the cancel result); whenever at least one of them happened the coroutine is handed to the scheduler
+//@ statement: exactly once (never lost, never twice); the park then returns Ok for an unpark alone, Timeout only if the timer fired, Canceled only if
+//@ statement: it was cancelled; the token, the passed-in result and the timer are cleaned up; exactly one yield
+#[kani::proof]
+#[kani::stub(crate::scheduler::get_scheduler, sup::get_scheduler_stub)]
+#[kani::stub(crate::scheduler::Scheduler::schedule, sup::schedule_stub)]
+#[kani::stub(crate::scheduler::Scheduler::add_timer, tl::add_timer_stub)]
+#[kani::stub(crate::scheduler::Scheduler::del_timer, tl::del_timer_stub)]
+#[kani::stub(crate::coroutine_impl::run_coroutine, sup::run_coroutine_stub)]
+#[kani::stub(crate::cancel::trigger_cancel_panic, sup::cancel_panic_stub)]
+#[kani::stub(<crate::park::Park as std::ops::Drop>::drop, sup::park_drop_noop)]
+#[kani::stub(crate::yield_now::set_co_para, sup::set_co_para_kind_only)]
+#[kani::stub(generator::co_set_para, sup::co_set_para_kind_only)]
+#[kani::unwind(3)]
+fn c02_2_sched_6_b0_a4_timed() {
+    blocking_park::<0, 4, true>();
+}
+
+//@ obligation: C02.2.7
+//@ tier: thorough
+//@ timeout: 1500
+//@ kind: K3
+//@ complete: yes
+//@ functions: Park::park_timeout, Park::subscribe, Park::unpark_impl, Park::wake_up, Park::fast_wake_up, Park::remove_timeout_handle, Park::yield_back, yield_with, CancelImpl::cancel
+//@ statement: schedule [unpark before subscribe, timer armed]: a park that has to block (caller handles the cancel result); whenever at least one of them happened the coroutine is handed to the scheduler
+//@ statement: exactly once (never lost, never twice); the park then returns Ok for an unpark alone, Timeout only if the timer fired, Canceled only if
+//@ statement: it was cancelled; the token, the passed-in result and the timer are cleaned up; exactly one yield
+#[kani::proof]
+#[kani::stub(crate::scheduler::get_scheduler, sup::get_scheduler_stub)]
+#[kani::stub(crate::scheduler::Scheduler::schedule, sup::schedule_stub)]
+#[kani::stub(crate::scheduler::Scheduler::add_timer, tl::add_timer_stub)]
+#[kani::stub(crate::scheduler::Scheduler::del_timer, tl::del_timer_stub)]
+#[kani::stub(crate::coroutine_impl::run_coroutine, sup::run_coroutine_stub)]
+#[kani::stub(crate::cancel::trigger_cancel_panic, sup::cancel_panic_stub)]
+#[kani::stub(<crate::park::Park as std::ops::Drop>::drop, sup::park_drop_noop)]
+#[kani::stub(crate::yield_now::set_co_para, sup::set_co_para_kind_only)]
+#[kani::stub(generator::co_set_para, sup::co_set_para_kind_only)]
+#[kani::unwind(3)]
+fn c02_2_sched_7_b1_a2_timed() {
+    blocking_park::<1, 2, true>();
+}
+
+//@ obligation: C02.2.8
+//@ tier: experimental
+//@ kind: K3
+//@ complete: yes
+//@ functions: Park::park_timeout, Park::subscribe, Park::unpark_impl, Park::wake_up, Park::fast_wake_up, Park::remove_timeout_handle, Park::yield_back, yield_with, CancelImpl::cancel
+//@ statement: schedule [unpark and cancel before subscribe]: a park that has to block (caller handles the cancel result); whenever at least one of them happened the coroutine is handed to the scheduler
+//@ statement: exactly once (never lost, never twice); the park then returns Ok for an unpark alone, Timeout only if the timer fired, Canceled only if
+//@ statement: it was cancelled; the token, the passed-in result and the timer are cleaned up; exactly one yield
+#[kani::proof]
+#[kani::stub(crate::scheduler::get_scheduler, sup::get_scheduler_stub)]
+#[kani::stub(crate::scheduler::Scheduler::schedule, sup::schedule_stub)]
+#[kani::stub(crate::scheduler::Scheduler::add_timer, tl::add_timer_stub)]
+#[kani::stub(crate::scheduler::Scheduler::del_timer, tl::del_timer_stub)]
+#[kani::stub(crate::coroutine_impl::run_coroutine, sup::run_coroutine_stub)]
+#[kani::stub(crate::cancel::trigger_cancel_panic, sup::cancel_panic_stub)]
+#[kani::stub(<crate::park::Park as std::ops::Drop>::drop, sup::park_drop_noop)]
+#[kani::stub(crate::yield_now::set_co_para, sup::set_co_para_kind_only)]
+#[kani::stub(generator::co_set_para, sup::co_set_para_kind_only)]
+#[kani::unwind(3)]
+fn c02_2_sched_8_b5_a0_untimed() {
+    blocking_park::<5, 0, false>();
+}
+
+//@ obligation: C02.2.9
+//@ tier: experimental
+//@ kind: K3
+//@ complete: yes
+//@ functions: Park::park_timeout, Park::subscribe, Park::unpark_impl, Park::wake_up, Park::fast_wake_up, Park::remove_timeout_handle, Park::yield_back, yield_with, CancelImpl::cancel
+//@ statement: schedule [unpark and timer expiry both after subscribe]: a park that has to block (caller handles the cancel result); whenever at least one of them happened the coroutine is handed to the scheduler
+//@ statement: exactly once (never lost, never twice); the park then returns Ok for an unpark alone, Timeout only if the timer fired, Canceled only if
+//@ statement: it was cancelled; the token, the passed-in result and the timer are cleaned up; exactly one yield
+#[kani::proof]
+#[kani::stub(crate::scheduler::get_scheduler, sup::get_scheduler_stub)]
+#[kani::stub(crate::scheduler::Scheduler::schedule, sup::schedule_stub)]
+#[kani::stub(crate::scheduler::Scheduler::add_timer, tl::add_timer_stub)]
+#[kani::stub(crate::scheduler::Scheduler::del_timer, tl::del_timer_stub)]
+#[kani::stub(crate::coroutine_impl::run_coroutine, sup::run_coroutine_stub)]
+#[kani::stub(crate::cancel::trigger_cancel_panic, sup::cancel_panic_stub)]
+#[kani::stub(<crate::park::Park as std::ops::Drop>::drop, sup::park_drop_noop)]
+#[kani::stub(crate::yield_now::set_co_para, sup::set_co_para_kind_only)]
+#[kani::stub(generator::co_set_para, sup::co_set_para_kind_only)]
+#[kani::unwind(3)]
+fn c02_2_sched_9_b0_a3_timed() {
+    blocking_park::<0, 3, true>();
+}
+
+//@ obligation: C02.2.10
+//@ tier: experimental
+//@ kind: K3
+//@ complete: yes
+//@ functions: Park::park_timeout, Park::subscribe, Park::unpark_impl, Park::wake_up, Park::fast_wake_up, Park::remove_timeout_handle, Park::yield_back, yield_with, CancelImpl::cancel
+//@ statement: schedule [unpark and cancel both after subscribe]: a park that has to block (caller handles the cancel result); whenever at least one of them happened the coroutine is handed to the scheduler
+//@ statement: exactly once (never lost, never twice); the park then returns Ok for an unpark alone, Timeout only if the timer fired, Canceled only if
+//@ statement: it was cancelled; the token, the passed-in result and the timer are cleaned up; exactly one yield
+#[kani::proof]
+#[kani::stub(crate::scheduler::get_scheduler, sup::get_scheduler_stub)]
+#[kani::stub(crate::scheduler::Scheduler::schedule, sup::schedule_stub)]
+#[kani::stub(crate::scheduler::Scheduler::add_timer, tl::add_timer_stub)]
+#[kani::stub(crate::scheduler::Scheduler::del_timer, tl::del_timer_stub)]
+#[kani::stub(crate::coroutine_impl::run_coroutine, sup::run_coroutine_stub)]
+#[kani::stub(crate::cancel::trigger_cancel_panic, sup::cancel_panic_stub)]
+#[kani::stub(<crate::park::Park as std::ops::Drop>::drop, sup::park_drop_noop)]
+#[kani::stub(crate::yield_now::set_co_para, sup::set_co_para_kind_only)]
+#[kani::stub(generator::co_set_para, sup::co_set_para_kind_only)]
+#[kani::unwind(3)]
+fn c02_2_sched_10_b0_a5_untimed() {
+    blocking_park::<0, 5, false>();
 }
 
 fn c02_3a_at_panic() {
@@ -203,25 +454,9 @@ fn c02_3a_at_panic() {
 }
 static mut PRE_CANCELLED: bool = false;
 
-//@ obligation: C02.3a
-//@ property: C02 C09
-//@ kind: K3
-//@ complete: yes
-//@ functions: Park::park_timeout, Park::subscribe, Park::yield_back, yield_with, CancelImpl::check_cancel, CancelImpl::cancel
-//@ statement: coroutine::park flavour (cancellation checked inside the park): an already cancelled coroutine does not yield at all and the cancel
-//@ statement: panic is raised; a coroutine cancelled while parked is resumed exactly once and the panic is raised after resume; a coroutine nobody
-//@ statement: cancelled never sees the panic and its park returns normally
-#[kani::proof]
-#[kani::stub(crate::scheduler::get_scheduler, sup::get_scheduler_stub)]
-#[kani::stub(crate::scheduler::Scheduler::schedule, sup::schedule_stub)]
-#[kani::stub(crate::scheduler::Scheduler::add_timer, tl::add_timer_stub)]
-#[kani::stub(crate::scheduler::Scheduler::del_timer, tl::del_timer_stub)]
-#[kani::stub(crate::coroutine_impl::run_coroutine, sup::run_coroutine_stub)]
-#[kani::stub(crate::cancel::trigger_cancel_panic, sup::cancel_panic_stub)]
-#[kani::unwind(3)]
-fn c02_3a_cancel_aware_park() {
-    let p = setup(true, false);
-    let pre: bool = kani::any();
+fn cancel_aware_park<const PRE: bool, const BEFORE: u8, const AFTER: u8>() {
+    let p = setup(BEFORE, AFTER, false);
+    let pre: bool = PRE;
     unsafe {
         PRE_CANCELLED = pre;
         sup::ON_CANCEL_PANIC = Some(c02_3a_at_panic);
@@ -238,6 +473,103 @@ fn c02_3a_cancel_aware_park() {
     sup::leave_coroutine();
 }
 
+
+//@ obligation: C02.3.0
+//@ tier: experimental
+//@ property: C02 C09
+//@ kind: K3
+//@ complete: yes
+//@ functions: Park::park_timeout, Park::subscribe, Park::yield_back, yield_with, CancelImpl::check_cancel, CancelImpl::cancel
+//@ statement: schedule [already cancelled before the park]: coroutine::park flavour (cancellation checked inside the park): an already cancelled coroutine does not yield at all and the cancel
+//@ statement: panic is raised; a coroutine cancelled while parked is resumed exactly once and the panic is raised after resume; a coroutine nobody
+//@ statement: cancelled never sees the panic and its park returns normally
+#[kani::proof]
+#[kani::stub(crate::scheduler::get_scheduler, sup::get_scheduler_stub)]
+#[kani::stub(crate::scheduler::Scheduler::schedule, sup::schedule_stub)]
+#[kani::stub(crate::scheduler::Scheduler::add_timer, tl::add_timer_stub)]
+#[kani::stub(crate::scheduler::Scheduler::del_timer, tl::del_timer_stub)]
+#[kani::stub(crate::coroutine_impl::run_coroutine, sup::run_coroutine_stub)]
+#[kani::stub(crate::cancel::trigger_cancel_panic, sup::cancel_panic_stub)]
+#[kani::stub(<crate::park::Park as std::ops::Drop>::drop, sup::park_drop_noop)]
+#[kani::stub(crate::yield_now::set_co_para, sup::set_co_para_kind_only)]
+#[kani::stub(generator::co_set_para, sup::co_set_para_kind_only)]
+#[kani::unwind(3)]
+fn c02_3_case_0() {
+    cancel_aware_park::<true, 0, 0>();
+}
+
+//@ obligation: C02.3.1
+//@ tier: experimental
+//@ property: C02 C09
+//@ kind: K3
+//@ complete: yes
+//@ functions: Park::park_timeout, Park::subscribe, Park::yield_back, yield_with, CancelImpl::check_cancel, CancelImpl::cancel
+//@ statement: schedule [cancelled while parked]: coroutine::park flavour (cancellation checked inside the park): an already cancelled coroutine does not yield at all and the cancel
+//@ statement: panic is raised; a coroutine cancelled while parked is resumed exactly once and the panic is raised after resume; a coroutine nobody
+//@ statement: cancelled never sees the panic and its park returns normally
+#[kani::proof]
+#[kani::stub(crate::scheduler::get_scheduler, sup::get_scheduler_stub)]
+#[kani::stub(crate::scheduler::Scheduler::schedule, sup::schedule_stub)]
+#[kani::stub(crate::scheduler::Scheduler::add_timer, tl::add_timer_stub)]
+#[kani::stub(crate::scheduler::Scheduler::del_timer, tl::del_timer_stub)]
+#[kani::stub(crate::coroutine_impl::run_coroutine, sup::run_coroutine_stub)]
+#[kani::stub(crate::cancel::trigger_cancel_panic, sup::cancel_panic_stub)]
+#[kani::stub(<crate::park::Park as std::ops::Drop>::drop, sup::park_drop_noop)]
+#[kani::stub(crate::yield_now::set_co_para, sup::set_co_para_kind_only)]
+#[kani::stub(generator::co_set_para, sup::co_set_para_kind_only)]
+#[kani::unwind(3)]
+fn c02_3_case_1() {
+    cancel_aware_park::<false, 0, 4>();
+}
+
+//@ obligation: C02.3.2
+//@ tier: experimental
+//@ property: C02 C09
+//@ kind: K3
+//@ complete: yes
+//@ functions: Park::park_timeout, Park::subscribe, Park::yield_back, yield_with, CancelImpl::check_cancel, CancelImpl::cancel
+//@ statement: schedule [cancelled in the window before the worker subscribes]: coroutine::park flavour (cancellation checked inside the park): an already cancelled coroutine does not yield at all and the cancel
+//@ statement: panic is raised; a coroutine cancelled while parked is resumed exactly once and the panic is raised after resume; a coroutine nobody
+//@ statement: cancelled never sees the panic and its park returns normally
+#[kani::proof]
+#[kani::stub(crate::scheduler::get_scheduler, sup::get_scheduler_stub)]
+#[kani::stub(crate::scheduler::Scheduler::schedule, sup::schedule_stub)]
+#[kani::stub(crate::scheduler::Scheduler::add_timer, tl::add_timer_stub)]
+#[kani::stub(crate::scheduler::Scheduler::del_timer, tl::del_timer_stub)]
+#[kani::stub(crate::coroutine_impl::run_coroutine, sup::run_coroutine_stub)]
+#[kani::stub(crate::cancel::trigger_cancel_panic, sup::cancel_panic_stub)]
+#[kani::stub(<crate::park::Park as std::ops::Drop>::drop, sup::park_drop_noop)]
+#[kani::stub(crate::yield_now::set_co_para, sup::set_co_para_kind_only)]
+#[kani::stub(generator::co_set_para, sup::co_set_para_kind_only)]
+#[kani::unwind(3)]
+fn c02_3_case_2() {
+    cancel_aware_park::<false, 4, 0>();
+}
+
+//@ obligation: C02.3.3
+//@ tier: experimental
+//@ property: C02 C09
+//@ kind: K3
+//@ complete: yes
+//@ functions: Park::park_timeout, Park::subscribe, Park::yield_back, yield_with, CancelImpl::check_cancel, CancelImpl::cancel
+//@ statement: schedule [not cancelled: unparked]: coroutine::park flavour (cancellation checked inside the park): an already cancelled coroutine does not yield at all and the cancel
+//@ statement: panic is raised; a coroutine cancelled while parked is resumed exactly once and the panic is raised after resume; a coroutine nobody
+//@ statement: cancelled never sees the panic and its park returns normally
+#[kani::proof]
+#[kani::stub(crate::scheduler::get_scheduler, sup::get_scheduler_stub)]
+#[kani::stub(crate::scheduler::Scheduler::schedule, sup::schedule_stub)]
+#[kani::stub(crate::scheduler::Scheduler::add_timer, tl::add_timer_stub)]
+#[kani::stub(crate::scheduler::Scheduler::del_timer, tl::del_timer_stub)]
+#[kani::stub(crate::coroutine_impl::run_coroutine, sup::run_coroutine_stub)]
+#[kani::stub(crate::cancel::trigger_cancel_panic, sup::cancel_panic_stub)]
+#[kani::stub(<crate::park::Park as std::ops::Drop>::drop, sup::park_drop_noop)]
+#[kani::stub(crate::yield_now::set_co_para, sup::set_co_para_kind_only)]
+#[kani::stub(generator::co_set_para, sup::co_set_para_kind_only)]
+#[kani::unwind(3)]
+fn c02_3_case_3() {
+    cancel_aware_park::<false, 0, 1>();
+}
+
 //@ obligation: C02.canary
 //@ kind: K3
 //@ canary: yes
@@ -250,9 +582,430 @@ fn c02_3a_cancel_aware_park() {
 #[kani::stub(crate::scheduler::Scheduler::del_timer, tl::del_timer_stub)]
 #[kani::stub(crate::coroutine_impl::run_coroutine, sup::run_coroutine_stub)]
 #[kani::stub(crate::cancel::trigger_cancel_panic, sup::cancel_panic_stub)]
+#[kani::stub(<crate::park::Park as std::ops::Drop>::drop, sup::park_drop_noop)]
+#[kani::stub(crate::yield_now::set_co_para, sup::set_co_para_kind_only)]
+#[kani::stub(generator::co_set_para, sup::co_set_para_kind_only)]
 #[kani::unwind(3)]
 fn c02_canary() {
-    let p = setup(false, true);
+    let p = setup(1, 0, true);
     let _ = p.park_timeout(None);
     assert!(false, "[C02.canary] canary (expected to fail)");
+}
+
+//@ obligation: C02.4a
+//@ kind: K3
+//@ complete: yes
+//@ functions: Park::unpark_impl, Park::wake_up
+//@ statement: unpark on a handle whose coroutine is registered (parked): the first unpark takes the coroutine and hands it to the scheduler exactly
+//@ statement: once — queued for Blocker::unpark, run at once for FastBlocker — and leaves the token set; a second unpark finds the token set and
+//@ statement: neither takes nor schedules anything
+#[kani::proof]
+#[kani::stub(crate::scheduler::get_scheduler, sup::get_scheduler_stub)]
+#[kani::stub(crate::scheduler::Scheduler::schedule, sup::schedule_stub)]
+#[kani::stub(crate::coroutine_impl::run_coroutine, sup::run_coroutine_stub)]
+#[kani::stub(<crate::park::Park as std::ops::Drop>::drop, sup::park_drop_noop)]
+#[kani::unwind(3)]
+fn c02_4a_unpark_takes_and_schedules_once() {
+    sup::trace_reset();
+    sup::scheduler_reset();
+    let p: &'static Park = Box::leak(Box::new(Park::new()));
+    let co: CoroutineImpl = generator::shim_new_empty(0x1000);
+    let id = co.shim_id();
+    p.wait_co.store(co);
+    let sync: bool = kani::any();
+    p.unpark_impl(sync);
+    assert!(sup::count(sup::E_SCHEDULE) == if sync { 0 } else { 1 } && sup::count(sup::E_RUN) == if sync { 1 } else { 0 }, "[C02.4-wake-once] the first unpark hands the parked coroutine to the scheduler exactly once");
+    assert!(p.state.load(Ordering::Acquire), "[C02.4-token-set] unpark leaves the token set");
+    let handed = unsafe { if sync { sup::RAN.as_ref().map(|c| c.shim_id()) } else { sup::SCHEDULED.as_ref().map(|c| c.shim_id()) } };
+    assert!(handed == Some(id), "[C02.4-same-coroutine] the coroutine handed over is the one that was parked");
+    p.unpark_impl(sync);
+    p.unpark();
+    assert!(resumptions() == 1, "[C02.4-idempotent] further unparks neither take nor schedule anything");
+    assert!(p.wait_co.take().is_none(), "[C02.4-taken] the parked coroutine was taken out of the slot");
+}
+
+//@ obligation: C02.5a
+//@ kind: K2
+//@ complete: yes
+//@ functions: AtomicOption::store, AtomicOption::take, AtomicOption::clear
+//@ statement: the single-taker slot every waker goes through: store; take; take yields Some then None (whoever takes first resumes the coroutine,
+//@ statement: everybody else gets nothing); clear empties it
+#[kani::proof]
+#[kani::unwind(3)]
+fn c02_5a_single_taker_slot() {
+    let slot: AtomicOption<CoroutineImpl> = AtomicOption::none();
+    assert!(slot.take().is_none(), "[C02.5-empty] an empty slot yields nothing");
+    let co: CoroutineImpl = generator::shim_new_empty(0x1000);
+    let id = co.shim_id();
+    slot.store(co);
+    let a = slot.take();
+    let b = slot.take();
+    assert!(a.as_ref().map(|c| c.shim_id()) == Some(id) && b.is_none(), "[C02.5-take-once] the first take gets the coroutine, the second gets nothing");
+    slot.store(a.unwrap());
+    slot.clear();
+    assert!(slot.take().is_none(), "[C02.5-clear] clear empties the slot");
+}
+
+/// `Park::subscribe` called directly (the worker side of a park), from a concrete pre-state
+fn subscribe_direct<const TOKEN: bool, const CANCELLED: bool, const TIMED: bool>() {
+    sup::trace_reset();
+    sup::scheduler_reset();
+    tl::timers_reset();
+    let handle = sup::enter_coroutine();
+    let p: &'static Park = Box::leak(Box::new(Park::new()));
+    let mut co: CoroutineImpl = generator::shim_new_empty(0x1000);
+    co.set_local_data(unsafe { generator::ghost::CUR_LOCAL });
+    let id = co.shim_id();
+    let d = Duration::from_millis(9);
+    if TIMED {
+        p.timeout.store(Some(d));
+    }
+    if TOKEN {
+        p.state.store(true, Ordering::Release);
+    }
+    if CANCELLED {
+        sup::cancel_of(handle).vk_set_cancel_bit();
+    }
+    EventSource::subscribe(unsafe { &mut *(p as *const Park as *mut Park) }, co);
+    assert!(unsafe { tl::ADD_TIMERS } == if TIMED { 1 } else { 0 }, "[C02.2-timer-armed-iff] a timer is armed iff a time-out was stored");
+    if TIMED {
+        assert!(unsafe { tl::LAST_TIMER_DUR } == Some(d), "[C08.5-duration-unchanged] the stored duration reaches the timer unchanged");
+        assert!(!p.timeout_handle.load(Ordering::Relaxed).is_null(), "[C02.2-handle-kept] the timer handle is kept for removal after resume");
+    }
+    assert!(p.timeout.take().is_none(), "[C02.2-timeout-consumed] the stored time-out is consumed by subscribe");
+    assert!(!p.wait_kernel.load(Ordering::Acquire), "[C02.2-kernel-flag] the in-kernel flag is cleared when subscribe returns");
+    if TOKEN {
+        assert!(sup::count(sup::E_RUN) == 1 && resumptions() == 1, "[C02.2-recheck-token] a token that arrived before the registration makes subscribe resume the coroutine itself, once");
+        assert!(unsafe { sup::RAN.as_ref().map(|c| c.shim_id()) } == Some(id) && p.wait_co.take().is_none(), "[C02.2-recheck-token] a token that arrived before the registration makes subscribe resume the coroutine itself, once");
+    } else if CANCELLED {
+        assert!(sup::count(sup::E_SCHEDULE) == 1 && resumptions() == 1, "[C09.3-recheck-cancel] a cancel that arrived before the registration makes subscribe reschedule the coroutine, once");
+        let r = unsafe { sup::SCHEDULED.as_ref().unwrap() };
+        assert!(r.shim_id() == id && r.shim_peek_para().map(|e| e.kind()) == Some(std::io::ErrorKind::Other), "[C09.2-cancel-result] the cancelled coroutine is rescheduled with the Canceled result");
+        assert!(p.wait_co.take().is_none(), "[C02.5-taken] the rescheduled coroutine was taken out of the slot");
+    } else {
+        assert!(resumptions() == 0, "[C02.2-stays-parked] without token and cancel the coroutine stays parked");
+        assert!(sup::cancel_of(handle).vk_co_registered(), "[C09.3-registered] the parked coroutine is registered with its Cancel object");
+        let parked = p.wait_co.take();
+        assert!(parked.as_ref().map(|c| c.shim_id()) == Some(id), "[C02.2-registered] the parked coroutine sits in the wake slot");
+        std::mem::forget(parked);
+    }
+    sup::leave_coroutine();
+}
+
+//@ obligation: C02.8a
+//@ property: C02 C09
+//@ kind: K3
+//@ complete: yes
+//@ functions: Park::subscribe, Park::fast_wake_up
+//@ statement: subscribe with the token already set (unpark raced ahead of the registration): the coroutine is resumed by subscribe itself, exactly once
+#[kani::proof]
+#[kani::stub(crate::scheduler::get_scheduler, sup::get_scheduler_stub)]
+#[kani::stub(crate::scheduler::Scheduler::schedule, sup::schedule_stub)]
+#[kani::stub(crate::scheduler::Scheduler::add_timer, tl::add_timer_stub)]
+#[kani::stub(crate::scheduler::Scheduler::del_timer, tl::del_timer_stub)]
+#[kani::stub(crate::coroutine_impl::run_coroutine, sup::run_coroutine_stub)]
+#[kani::stub(<crate::park::Park as std::ops::Drop>::drop, sup::park_drop_noop)]
+#[kani::stub(crate::yield_now::set_co_para, sup::set_co_para_kind_only)]
+#[kani::unwind(3)]
+fn c02_8a_subscribe_token_first() {
+    subscribe_direct::<true, false, true>();
+}
+
+//@ obligation: C02.8b
+//@ property: C02 C09
+//@ kind: K3
+//@ complete: yes
+//@ functions: Park::subscribe, CancelImpl::set_co, CancelImpl::cancel
+//@ statement: subscribe of an already cancelled coroutine: it registers with the Cancel object, re-checks the cancel bit and reschedules the coroutine once with the Canceled result
+#[kani::proof]
+#[kani::stub(crate::scheduler::get_scheduler, sup::get_scheduler_stub)]
+#[kani::stub(crate::scheduler::Scheduler::schedule, sup::schedule_stub)]
+#[kani::stub(crate::scheduler::Scheduler::add_timer, tl::add_timer_stub)]
+#[kani::stub(crate::scheduler::Scheduler::del_timer, tl::del_timer_stub)]
+#[kani::stub(crate::coroutine_impl::run_coroutine, sup::run_coroutine_stub)]
+#[kani::stub(<crate::park::Park as std::ops::Drop>::drop, sup::park_drop_noop)]
+#[kani::stub(crate::yield_now::set_co_para, sup::set_co_para_kind_only)]
+#[kani::unwind(3)]
+fn c02_8b_subscribe_cancelled_first() {
+    subscribe_direct::<false, true, false>();
+}
+
+//@ obligation: C02.8c
+//@ property: C02 C09
+//@ kind: K3
+//@ complete: yes
+//@ functions: Park::subscribe, CancelImpl::set_co
+//@ statement: subscribe without token and cancel: the timer is armed with the stored duration, the coroutine sits in the wake slot and is registered with its Cancel object; nothing is scheduled
+#[kani::proof]
+#[kani::stub(crate::scheduler::get_scheduler, sup::get_scheduler_stub)]
+#[kani::stub(crate::scheduler::Scheduler::schedule, sup::schedule_stub)]
+#[kani::stub(crate::scheduler::Scheduler::add_timer, tl::add_timer_stub)]
+#[kani::stub(crate::scheduler::Scheduler::del_timer, tl::del_timer_stub)]
+#[kani::stub(crate::coroutine_impl::run_coroutine, sup::run_coroutine_stub)]
+#[kani::stub(<crate::park::Park as std::ops::Drop>::drop, sup::park_drop_noop)]
+#[kani::stub(crate::yield_now::set_co_para, sup::set_co_para_kind_only)]
+#[kani::unwind(3)]
+fn c02_8c_subscribe_parks() {
+    subscribe_direct::<false, false, true>();
+}
+
+/// after `subscribe_direct::<false, false, TIMED>` left the coroutine parked: a first waker, then a second one
+fn wakers_after_parked<const FIRST: u8, const SECOND: u8, const TIMED: bool>() {
+    sup::trace_reset();
+    sup::scheduler_reset();
+    tl::timers_reset();
+    let handle = sup::enter_coroutine();
+    let p: &'static Park = Box::leak(Box::new(Park::new()));
+    let mut co: CoroutineImpl = generator::shim_new_empty(0x1000);
+    co.set_local_data(unsafe { generator::ghost::CUR_LOCAL });
+    let id = co.shim_id();
+    if TIMED {
+        p.timeout.store(Some(Duration::from_millis(9)));
+    }
+    EventSource::subscribe(unsafe { &mut *(p as *const Park as *mut Park) }, co);
+    assert!(resumptions() == 0, "[C02.2-stays-parked] without token and cancel the coroutine stays parked");
+    unsafe {
+        PARK = p;
+        CO = Some(handle);
+    }
+    let e1 = env_events(FIRST, TIMED);
+    assert!(e1 == FIRST, "scripted event must be possible");
+    assert!(resumptions() == 1, "[C02.2-no-lost-wakeup] an unpark / time-out / cancel happened but the parked coroutine was not handed to the scheduler: it sleeps forever");
+    let resumed = unsafe {
+        match sup::SCHEDULED.as_ref() {
+            Some(c) => c,
+            None => sup::RAN.as_ref().unwrap(),
+        }
+    };
+    assert!(resumed.shim_id() == id, "[C02.4-same-coroutine] the coroutine handed over is the one that was parked");
+    let kind = resumed.shim_peek_para().map(|e| e.kind());
+    match FIRST {
+        1 => assert!(kind.is_none(), "[C02.2-unpark-ok] an unpark resumes the coroutine without a result (park returns Ok)"),
+        2 => assert!(kind == Some(std::io::ErrorKind::TimedOut), "[C02.2-timer-timeout] the timer resumes the coroutine with the TimedOut result"),
+        _ => assert!(kind == Some(std::io::ErrorKind::Other), "[C09.2-cancel-result] cancel resumes the coroutine with the Canceled result"),
+    }
+    // a second waker finds nothing to take
+    let _ = env_events(SECOND, TIMED);
+    assert!(resumptions() == 1, "[C02.5-single-resumption] the parked coroutine was handed to the scheduler more than once");
+    sup::leave_coroutine();
+}
+
+//@ obligation: C02.9.0
+//@ property: C02 C09
+//@ kind: K3
+//@ complete: yes
+//@ functions: Park::subscribe, Park::unpark_impl, Park::wake_up, CancelImpl::cancel, timer expiry handler (modelled copy)
+//@ statement: a coroutine parked by the real subscribe, then [unpark] followed by [unpark]: the first waker takes the coroutine out of the
+//@ statement: shared slot and hands it to the scheduler exactly once with the matching result; the second waker finds the slot empty and does nothing
+#[kani::proof]
+#[kani::stub(crate::scheduler::get_scheduler, sup::get_scheduler_stub)]
+#[kani::stub(crate::scheduler::Scheduler::schedule, sup::schedule_stub)]
+#[kani::stub(crate::scheduler::Scheduler::add_timer, tl::add_timer_stub)]
+#[kani::stub(crate::scheduler::Scheduler::del_timer, tl::del_timer_stub)]
+#[kani::stub(crate::coroutine_impl::run_coroutine, sup::run_coroutine_stub)]
+#[kani::stub(<crate::park::Park as std::ops::Drop>::drop, sup::park_drop_noop)]
+#[kani::stub(crate::yield_now::set_co_para, sup::set_co_para_kind_only)]
+#[kani::unwind(3)]
+fn c02_9_unpark_then_unpark() {
+    wakers_after_parked::<1, 1, false>();
+}
+
+//@ obligation: C02.9.1
+//@ property: C02 C09
+//@ kind: K3
+//@ complete: yes
+//@ functions: Park::subscribe, Park::unpark_impl, Park::wake_up, CancelImpl::cancel, timer expiry handler (modelled copy)
+//@ statement: a coroutine parked by the real subscribe, then [unpark] followed by [timer]: the first waker takes the coroutine out of the
+//@ statement: shared slot and hands it to the scheduler exactly once with the matching result; the second waker finds the slot empty and does nothing
+#[kani::proof]
+#[kani::stub(crate::scheduler::get_scheduler, sup::get_scheduler_stub)]
+#[kani::stub(crate::scheduler::Scheduler::schedule, sup::schedule_stub)]
+#[kani::stub(crate::scheduler::Scheduler::add_timer, tl::add_timer_stub)]
+#[kani::stub(crate::scheduler::Scheduler::del_timer, tl::del_timer_stub)]
+#[kani::stub(crate::coroutine_impl::run_coroutine, sup::run_coroutine_stub)]
+#[kani::stub(<crate::park::Park as std::ops::Drop>::drop, sup::park_drop_noop)]
+#[kani::stub(crate::yield_now::set_co_para, sup::set_co_para_kind_only)]
+#[kani::unwind(3)]
+fn c02_9_unpark_then_timer() {
+    wakers_after_parked::<1, 2, true>();
+}
+
+//@ obligation: C02.9.2
+//@ property: C02 C09
+//@ kind: K3
+//@ complete: yes
+//@ functions: Park::subscribe, Park::unpark_impl, Park::wake_up, CancelImpl::cancel, timer expiry handler (modelled copy)
+//@ statement: a coroutine parked by the real subscribe, then [unpark] followed by [cancel]: the first waker takes the coroutine out of the
+//@ statement: shared slot and hands it to the scheduler exactly once with the matching result; the second waker finds the slot empty and does nothing
+#[kani::proof]
+#[kani::stub(crate::scheduler::get_scheduler, sup::get_scheduler_stub)]
+#[kani::stub(crate::scheduler::Scheduler::schedule, sup::schedule_stub)]
+#[kani::stub(crate::scheduler::Scheduler::add_timer, tl::add_timer_stub)]
+#[kani::stub(crate::scheduler::Scheduler::del_timer, tl::del_timer_stub)]
+#[kani::stub(crate::coroutine_impl::run_coroutine, sup::run_coroutine_stub)]
+#[kani::stub(<crate::park::Park as std::ops::Drop>::drop, sup::park_drop_noop)]
+#[kani::stub(crate::yield_now::set_co_para, sup::set_co_para_kind_only)]
+#[kani::unwind(3)]
+fn c02_9_unpark_then_cancel() {
+    wakers_after_parked::<1, 4, false>();
+}
+
+//@ obligation: C02.9.3
+//@ property: C02 C09
+//@ kind: K3
+//@ complete: yes
+//@ functions: Park::subscribe, Park::unpark_impl, Park::wake_up, CancelImpl::cancel, timer expiry handler (modelled copy)
+//@ statement: a coroutine parked by the real subscribe, then [timer] followed by [unpark]: the first waker takes the coroutine out of the
+//@ statement: shared slot and hands it to the scheduler exactly once with the matching result; the second waker finds the slot empty and does nothing
+#[kani::proof]
+#[kani::stub(crate::scheduler::get_scheduler, sup::get_scheduler_stub)]
+#[kani::stub(crate::scheduler::Scheduler::schedule, sup::schedule_stub)]
+#[kani::stub(crate::scheduler::Scheduler::add_timer, tl::add_timer_stub)]
+#[kani::stub(crate::scheduler::Scheduler::del_timer, tl::del_timer_stub)]
+#[kani::stub(crate::coroutine_impl::run_coroutine, sup::run_coroutine_stub)]
+#[kani::stub(<crate::park::Park as std::ops::Drop>::drop, sup::park_drop_noop)]
+#[kani::stub(crate::yield_now::set_co_para, sup::set_co_para_kind_only)]
+#[kani::unwind(3)]
+fn c02_9_timer_then_unpark() {
+    wakers_after_parked::<2, 1, true>();
+}
+
+//@ obligation: C02.9.4
+//@ property: C02 C09
+//@ kind: K3
+//@ complete: yes
+//@ functions: Park::subscribe, Park::unpark_impl, Park::wake_up, CancelImpl::cancel, timer expiry handler (modelled copy)
+//@ statement: a coroutine parked by the real subscribe, then [timer] followed by [cancel]: the first waker takes the coroutine out of the
+//@ statement: shared slot and hands it to the scheduler exactly once with the matching result; the second waker finds the slot empty and does nothing
+#[kani::proof]
+#[kani::stub(crate::scheduler::get_scheduler, sup::get_scheduler_stub)]
+#[kani::stub(crate::scheduler::Scheduler::schedule, sup::schedule_stub)]
+#[kani::stub(crate::scheduler::Scheduler::add_timer, tl::add_timer_stub)]
+#[kani::stub(crate::scheduler::Scheduler::del_timer, tl::del_timer_stub)]
+#[kani::stub(crate::coroutine_impl::run_coroutine, sup::run_coroutine_stub)]
+#[kani::stub(<crate::park::Park as std::ops::Drop>::drop, sup::park_drop_noop)]
+#[kani::stub(crate::yield_now::set_co_para, sup::set_co_para_kind_only)]
+#[kani::unwind(3)]
+fn c02_9_timer_then_cancel() {
+    wakers_after_parked::<2, 4, true>();
+}
+
+//@ obligation: C02.9.5
+//@ property: C02 C09
+//@ kind: K3
+//@ complete: yes
+//@ functions: Park::subscribe, Park::unpark_impl, Park::wake_up, CancelImpl::cancel, timer expiry handler (modelled copy)
+//@ statement: a coroutine parked by the real subscribe, then [cancel] followed by [unpark]: the first waker takes the coroutine out of the
+//@ statement: shared slot and hands it to the scheduler exactly once with the matching result; the second waker finds the slot empty and does nothing
+#[kani::proof]
+#[kani::stub(crate::scheduler::get_scheduler, sup::get_scheduler_stub)]
+#[kani::stub(crate::scheduler::Scheduler::schedule, sup::schedule_stub)]
+#[kani::stub(crate::scheduler::Scheduler::add_timer, tl::add_timer_stub)]
+#[kani::stub(crate::scheduler::Scheduler::del_timer, tl::del_timer_stub)]
+#[kani::stub(crate::coroutine_impl::run_coroutine, sup::run_coroutine_stub)]
+#[kani::stub(<crate::park::Park as std::ops::Drop>::drop, sup::park_drop_noop)]
+#[kani::stub(crate::yield_now::set_co_para, sup::set_co_para_kind_only)]
+#[kani::unwind(3)]
+fn c02_9_cancel_then_unpark() {
+    wakers_after_parked::<4, 1, false>();
+}
+
+//@ obligation: C02.9.6
+//@ property: C02 C09
+//@ kind: K3
+//@ complete: yes
+//@ functions: Park::subscribe, Park::unpark_impl, Park::wake_up, CancelImpl::cancel, timer expiry handler (modelled copy)
+//@ statement: a coroutine parked by the real subscribe, then [cancel] followed by [timer]: the first waker takes the coroutine out of the
+//@ statement: shared slot and hands it to the scheduler exactly once with the matching result; the second waker finds the slot empty and does nothing
+#[kani::proof]
+#[kani::stub(crate::scheduler::get_scheduler, sup::get_scheduler_stub)]
+#[kani::stub(crate::scheduler::Scheduler::schedule, sup::schedule_stub)]
+#[kani::stub(crate::scheduler::Scheduler::add_timer, tl::add_timer_stub)]
+#[kani::stub(crate::scheduler::Scheduler::del_timer, tl::del_timer_stub)]
+#[kani::stub(crate::coroutine_impl::run_coroutine, sup::run_coroutine_stub)]
+#[kani::stub(<crate::park::Park as std::ops::Drop>::drop, sup::park_drop_noop)]
+#[kani::stub(crate::yield_now::set_co_para, sup::set_co_para_kind_only)]
+#[kani::unwind(3)]
+fn c02_9_cancel_then_timer() {
+    wakers_after_parked::<4, 2, true>();
+}
+
+static mut YIELD_RESULT: u8 = 0; // 0 none, 1 TimedOut, 2 Other
+static mut YIELD_CALLS: usize = 0;
+static mut TIMEOUT_AT_YIELD: Option<Duration> = None;
+/// contract of `yield_with(&park)` (C02.8/C02.9): the coroutine was suspended and resumed; the resumer may have
+/// left a result; a timer handle may be installed; an unpark may have set the token again
+fn yield_with_contract<T: EventSource>(_r: &T) {
+    unsafe {
+        YIELD_CALLS += 1;
+        let p = &*PARK;
+        TIMEOUT_AT_YIELD = p.timeout.take();
+        if let Some(d) = TIMEOUT_AT_YIELD {
+            // what subscribe does with it
+            let h = tl::add_timer_stub(sup::get_scheduler_stub(), d, p.wait_co.clone());
+            p.set_timeout_handle(Some(h));
+        }
+        if kani::any() {
+            p.state.store(true, Ordering::Release);
+        }
+        match YIELD_RESULT {
+            1 => sup::set_current_para(Some(std::io::Error::from(std::io::ErrorKind::TimedOut))),
+            2 => sup::set_current_para(Some(std::io::Error::from(std::io::ErrorKind::Other))),
+            _ => {}
+        }
+    }
+}
+
+//@ obligation: C02.10
+//@ property: C02 C08 C15
+//@ kind: K1
+//@ complete: yes
+//@ functions: Park::park_timeout, Park::check_park, Park::remove_timeout_handle, Park::set_timeout_handle
+//@ statement: park_timeout around the suspension (yield_with replaced by its contract): without token it stores exactly the caller's time-out and
+//@ statement: yields once; after resume the result maps as: no passed-in result => Ok, TimedOut => Timeout, Other => Canceled; on every path the token
+//@ statement: is cleared, the passed-in result is consumed, and the timer handle is taken out and handed to del_timer iff it is still linked
+#[kani::proof]
+#[kani::stub(crate::scheduler::get_scheduler, sup::get_scheduler_stub)]
+#[kani::stub(crate::scheduler::Scheduler::schedule, sup::schedule_stub)]
+#[kani::stub(crate::scheduler::Scheduler::add_timer, tl::add_timer_stub)]
+#[kani::stub(crate::scheduler::Scheduler::del_timer, tl::del_timer_stub)]
+#[kani::stub(crate::coroutine_impl::run_coroutine, sup::run_coroutine_stub)]
+#[kani::stub(<crate::park::Park as std::ops::Drop>::drop, sup::park_drop_noop)]
+#[kani::stub(crate::yield_now::yield_with, yield_with_contract)]
+#[kani::unwind(3)]
+fn c02_10_park_timeout_around_the_yield() {
+    sup::trace_reset();
+    sup::scheduler_reset();
+    tl::timers_reset();
+    let _h = sup::enter_coroutine();
+    let p: &'static Park = Box::leak(Box::new(Park::new()));
+    let res: u8 = kani::any();
+    kani::assume(res <= 2);
+    unsafe {
+        PARK = p;
+        YIELD_RESULT = res;
+        YIELD_CALLS = 0;
+        TIMEOUT_AT_YIELD = None;
+    }
+    let timed: bool = kani::any();
+    let secs: u64 = kani::any();
+    kani::assume(secs < 1000);
+    let d = Duration::from_secs(secs);
+    let r = p.park_timeout(if timed { Some(d) } else { None });
+    assert!(unsafe { YIELD_CALLS } == 1, "[C02.10-one-yield] a park without token yields exactly once");
+    assert!(unsafe { TIMEOUT_AT_YIELD.is_some() } == timed, "[C02.10-timeout-stored] the caller's time-out is stored for subscribe iff one was given");
+    if timed {
+        let got = unsafe { TIMEOUT_AT_YIELD.unwrap() };
+        assert!(got >= d && got - d < Duration::from_millis(1) || (secs == 0 && got == Duration::from_millis(1)), "[C08.5-duration-unchanged] the caller's duration reaches subscribe unchanged (within the 1 ms tick)");
+    }
+    match res {
+        0 => assert!(r.is_ok(), "[C02.4-map-ok] no passed-in result means Ok"),
+        1 => assert!(r == Err(ParkError::Timeout), "[C02.4-map-timeout] a TimedOut result means Timeout"),
+        _ => assert!(r == Err(ParkError::Canceled), "[C02.4-map-canceled] an Other result means Canceled"),
+    }
+    assert!(!p.state.load(Ordering::Acquire), "[C02.4-token-cleared] the token is cleared after the park");
+    assert!(!sup::current_para_is_some(), "[C15.3-result-consumed] the passed-in result is consumed before park returns");
+    assert!(p.timeout_handle.load(Ordering::Relaxed).is_null(), "[C02.4-timer-removed] the timer handle is taken out after the park");
+    assert!(unsafe { tl::DEL_TIMERS } == if timed { 1 } else { 0 }, "[C18.2-timer-deleted] a still linked timer entry is handed to del_timer");
+    sup::leave_coroutine();
 }
